@@ -257,9 +257,18 @@ class Interp:
             return
         if isinstance(tgt, TupleUnpack):
             p = tgt.pattern
-            if p.starred is not None:
-                raise Unsupported("starred unpacking")
-            for t, v in zip(p.left, val, strict=True):
+            val = list(val)
+            nl, nr = len(p.left), len(p.right)
+            if p.starred is None:
+                if len(val) != nl:
+                    raise Unsupported("tuple of unexpected length")
+            else:
+                if len(val) < nl + nr:
+                    raise Unsupported("tuple of unexpected length")
+                self.assign(env, p.starred, val[nl:len(val) - nr])      # the starred target collects the middle elements in order
+            for t, v in zip(p.left, val[:nl], strict=True):
+                self.assign(env, t, v)
+            for t, v in zip(p.right, val[len(val) - nr:] if nr else [], strict=True):
                 self.assign(env, t, v)
             return
         raise Unsupported(type(tgt).__name__)
